@@ -145,3 +145,16 @@ def squared_norm_idiom(expr: ast.AST, x: str) -> Optional[bool]:
     if t in no:
         return False
     return None
+
+
+def share_rule(ctx, owner: str, fn, new_rule: str) -> int:
+    """Run ``fn(sub)`` in a scratch context of property ``owner`` and re-file everything it reports under ``new_rule`` of the
+    calling property: one rule, decided once, claimed by every property whose statement depends on it."""
+    from .report import Ctx as _Ctx
+
+    sub = _Ctx(owner, ctx.repo, ctx.tier)
+    fn(sub)
+    for o in sub.obligations:
+        ctx._add(o.status, new_rule, o.construct, o.detail, o.where)
+    ctx.functions_analysed |= sub.functions_analysed
+    return len(sub.obligations)
